@@ -98,11 +98,13 @@ static void run_c07() {
       set_current("%s", cd.c_str());
       if (!write_ctx(wc, wv, &bytes, &wv0)) { rep().violation("C07:write-failed", pname + ": writing the table failed", cd); continue; }
       Val expect = canon_by(rc.sch, project(wc.sch, wv0, rc.sch));
-      Bytes stream = bytes; const uint8_t sentinel[5] = {0x82, 0xef, 0xbe, 0xad, 0xde}; stream.insert(stream.end(), sentinel, sentinel + 5);
+      const bool with_sentinel = ((ci >> 2) & 1) == 0;     // otherwise the table is the last thing on the stream / in the buffer
+      Bytes stream = bytes; const uint8_t sentinel[5] = {0x82, 0xef, 0xbe, 0xad, 0xde}; if (with_sentinel) stream.insert(stream.end(), sentinel, sentinel + 5);
+      rep().count(with_sentinel ? "c07_tables_followed_by_more_data" : "c07_tables_ending_the_stream");
       rep().note(hash_combine(hash_str(pname), hash_combine(hash_bytes(bytes.data(), bytes.size()), (uint64_t)c)), wi != ri);
       rep().count("c07_version_pair_cases"); rep().count(std::string("c07_context_") + kCtxName[c]); if (wi != ri) rep().count("c07_cases_between_different_versions");
       for (int rk : kReaders) {
-        Source src; src.init(rk, stream.data(), stream.size(), r_is_bounded(rk) ? stream.size() + 1 : SIZE_MAX, 1 + (unsigned)(ci % 6));
+        Source src; src.init(rk, stream.data(), stream.size(), r_is_bounded(rk) ? stream.size() + (with_sentinel ? 1 : 0) : SIZE_MAX, 1 + (unsigned)(ci % 6));
         void* o = rc.t->create();
         // reading into an object that already holds other entries must not keep them (fresh objects in half of the cases)
         if (ci & 1) { Rng r2(r.next()); Val pv = gen_ctx_val(R, c, r2.next(), r2); rc.t->from_val(pv, o); }
@@ -114,7 +116,7 @@ static void run_c07() {
           Val got = canon_by(rc.sch, rc.t->to_val(o));
           if (got != expect) rep().violation(fmt("C07:entries-differ:%s", kCtxName[c]), fmt("%s: version %s read %s from data of version %s, expected %s (%s)", kCtxName[c], R.pv.name.c_str(), str(got).substr(0, 200).c_str(), W.pv.name.c_str(), str(expect).substr(0, 200).c_str(), rname(rk)), cd);
           else if (src.consumed() != bytes.size()) rep().violation(fmt("C07:position:%s:%s", kCtxName[c], rname(rk)), fmt("%s: reader ends at %zu, the table encoding is %zu bytes long", kCtxName[c], src.consumed(), bytes.size()), cd);
-          else {
+          else if (with_sentinel) {
             uint32_t sv = 0; nop::Status<void> s2;
             switch (rk) { case R_PEDANTIC: s2 = nop::Deserializer<nop::PedanticBufferReader*>{&src.pr}.Read(&sv); break; case R_BUFFER: s2 = nop::Deserializer<nop::BufferReader*>{&src.br}.Read(&sv); break;
               case R_STREAM: s2 = nop::Deserializer<SStreamReader*>{src.sr.get()}.Read(&sv); break; case R_CHUNKED: s2 = nop::Deserializer<ChunkedReader*>{src.cr.get()}.Read(&sv); break;
@@ -187,6 +189,9 @@ static void table_mutations(const Enc& e, Rng& r, std::vector<TMut>& out) {
         if (d <= 2) { std::vector<Bytes> pe = eb; pe[i] = make_entry(s.id, val, sz + d); out.push_back({rebuild(e, g, pe, k), fmt("entry %zu declared size grown by %" PRIu64 " without padding", i, d), false}); }
       }
     }
+    // ---- declared sizes far beyond the data: 2^64-1, 2^64-2, 2^64-value size, 2^63, 2^32 (a limit check that wraps accepts these)
+    for (size_t i = 0; i < k && i < 3; i++) { const EntrySpan& s = g.ents[i]; Bytes val(e.out.begin() + s.val_off, e.out.begin() + s.end_off);
+      for (uint64_t huge : {~0ull, ~0ull - 1, 0ull - (uint64_t)val.size(), 0ull - (uint64_t)(s.val_off), 1ull << 63, 1ull << 32}) { std::vector<Bytes> pe = eb; pe[i] = make_entry(s.id, val, huge); out.push_back({rebuild(e, g, pe, k), fmt("entry %zu declared size %" PRIu64 " (bytes kept)", i, huge), false}); } }
     // ---- entry count +-1
     out.push_back({rebuild(e, g, eb, k + 1), "entry count + 1", false});
     if (k) out.push_back({rebuild(e, g, eb, k - 1), "entry count - 1", false});
